@@ -130,6 +130,29 @@ pub enum Y {
     Zero,
     Mcast,
 }
+/// value of a T1 or T2 option that comes ALONE (the other one absent), relative to the lease L
+/// carried by the same ACK, or equal to the configuration's max-lease cap
+#[derive(Clone, Copy, PartialEq, Eq, Debug, Hash)]
+pub enum AV {
+    Zero,
+    Half,
+    Lm1,
+    L,
+    Lp1,
+    Cap(u32),
+}
+impl AV {
+    fn value(self, l: u32) -> u32 {
+        match self {
+            AV::Zero => 0,
+            AV::Half => l / 2,
+            AV::Lm1 => l.saturating_sub(1),
+            AV::L => l,
+            AV::Lp1 => l.saturating_add(1),
+            AV::Cap(c) => c,
+        }
+    }
+}
 #[derive(Clone, Copy, PartialEq, Eq, Debug, Hash)]
 pub enum T12 {
     Absent,
@@ -146,6 +169,10 @@ pub enum T12 {
     /// explicit inconsistent/edge pairs: T1 == 0 with a proper T2: (0, L/2); T2 == lease: (L/2, L)
     T1Zero,
     T2EqLease,
+    /// option 58 alone / option 59 alone with the values 0, L/2, L-1, L, L+1 (and the cap)
+    /// (`T1Only` = 58 alone with L/2, `T2Only` = 59 alone with L/4 are the older two)
+    T1Alone(AV),
+    T2Alone(AV),
     /// explicit pairs around a max_lease_duration cap c (only in configurations with a cap):
     /// (c-1, c), (c, c+1), (c+1, L-1) — valid for a server lease L > c+2, not for the capped one
     CapLo(u32),
@@ -321,6 +348,8 @@ fn t12_values(t: T12, lease: Option<u32>) -> (Option<u32>, Option<u32>) {
         T12::Spelled => (Some(l / 2), Some((l as u64 * 7 / 8) as u32)),
         T12::T1Zero => (Some(0), Some(l / 2)),
         T12::T2EqLease => (Some(l / 2), Some(l)),
+        T12::T1Alone(v) => (Some(v.value(l)), None),
+        T12::T2Alone(v) => (None, Some(v.value(l))),
         T12::CapLo(c) => (Some(c.saturating_sub(1)), Some(c)),
         T12::CapAt(c) => (Some(c), Some(c.saturating_add(1))),
         T12::CapHi(c) => (Some(c.saturating_add(1)), Some(l.saturating_sub(1))),
@@ -328,7 +357,7 @@ fn t12_values(t: T12, lease: Option<u32>) -> (Option<u32>, Option<u32>) {
 }
 
 const LEASES: [Option<u32>; 7] = [None, Some(0), Some(1), Some(2), Some(60), Some(600), Some(u32::MAX)];
-const T12S: [T12; 12] = [
+const T12S: [T12; 21] = [
     T12::Absent,
     T12::Zero,
     T12::Equal,
@@ -341,6 +370,15 @@ const T12S: [T12; 12] = [
     T12::Spelled,
     T12::T1Zero,
     T12::T2EqLease,
+    T12::T1Alone(AV::Zero),
+    T12::T1Alone(AV::Lm1),
+    T12::T1Alone(AV::L),
+    T12::T1Alone(AV::Lp1),
+    T12::T2Alone(AV::Zero),
+    T12::T2Alone(AV::Half),
+    T12::T2Alone(AV::Lm1),
+    T12::T2Alone(AV::L),
+    T12::T2Alone(AV::Lp1),
 ];
 
 /// `cap` = the configuration's max_lease_duration: adds a control lease just below the cap and
@@ -353,7 +391,7 @@ fn alphabet(alpha: u8, earlier: bool, cap: Option<u32>) -> Vec<MsgSpec> {
         if c >= 20 {
             leases.push(Some(c - 10));
         }
-        t12s.extend([T12::CapLo(c), T12::CapAt(c), T12::CapHi(c)]);
+        t12s.extend([T12::CapLo(c), T12::CapAt(c), T12::CapHi(c), T12::T1Alone(AV::Cap(c)), T12::T2Alone(AV::Cap(c))]);
     }
     let xids: &[X] = if earlier { &[X::Earlier, X::Foreign] } else { &[X::Foreign] };
     // OFFER: base + single deviations in the dimensions an OFFER has
@@ -622,9 +660,10 @@ struct Lease {
     e_capped: Option<i64>,
     /// granted seconds after capping (attempt clause threshold)
     secs_capped: Option<u64>,
-    /// renew-before-rebind is only demanded when the ACK carried both or neither of T1/T2.
-    /// LENIENT: with only one of them the statement's "T1 < T2" premise is undefined (the code
-    /// documents T1 := min(lease/2, T2) for a lone T2, which can make T1 == T2).
+    /// a renewal attempt (and renew-before-rebind) is demanded unless the ACK carried option 59
+    /// (T2) alone.  LENIENT: with a lone T2 the statement's "T1 < T2" premise is undefined (the
+    /// code documents T1 := min(lease/2, T2), which can make T1 == T2 and skip the renewing
+    /// phase).  A REBINDING attempt before the end of the lease is demanded for every shape.
     order_demanded: bool,
     t2only: bool,
     renew_seen: bool,
@@ -925,7 +964,7 @@ impl DhcpH {
                 },
                 e_capped: s.lease.map(|l| self.now + l as i64 * US),
                 secs_capped,
-                order_demanded: t1.is_some() == t2.is_some(),
+                order_demanded: !(t1.is_none() && t2.is_some()),
                 t2only: t1.is_none() && t2.is_some(),
                 renew_seen: false,
                 rebind_seen: false,
@@ -1150,12 +1189,20 @@ impl DhcpH {
                             // the documented minimum retry interval).
                             // "silent" includes this very poll: a Deconfigured in a poll that
                             // delivered a server message (NAK, bursts) is not an expiry.
-                            if !ctx.any_dhcp && l.silent && l.faithful && l.order_demanded && !self.m.tainted && l.secs_capped.is_some_and(|s| s >= 600) {
+                            // With no answer after the ACK the client must send at least one
+                            // renewal (unicast) and at least one rebinding (broadcast) REQUEST
+                            // strictly before the lease ends (a REQUEST at/after expiry is
+                            // C18/renew/request-after-expiry).  The rebinding half is judged for
+                            // every T1/T2 shape, the renewal half unless T2 came alone.
+                            // LENIENT: not while the interface holds the socket back after an
+                            // unanswered ARP (`Waiting` image): the 1 s silence can cover a
+                            // rebinding instant less than a second before expiry.
+                            if !ctx.any_dhcp && l.silent && l.faithful && !self.m.tainted && l.secs_capped.is_some_and(|s| s >= 600) {
                                 self.m.labels |= L_RUN_FULL_LEASE;
-                                if !l.renew_seen && !self.silenced() {
+                                if l.order_demanded && !l.renew_seen && !self.silenced() {
                                     out.push(Viol::new("C18/renew/no-renew-attempt-before-expiry", format!("lease of {:?} s ended at {} without any renewal attempt although the server was silent and the client was polled at every poll_at", l.secs_capped, tsec(self.now))));
                                 }
-                                if !l.rebind_seen {
+                                if !l.rebind_seen && !self.silenced() {
                                     out.push(Viol::new("C18/renew/no-rebind-attempt-before-expiry", format!("lease of {:?} s ended at {} without any rebind attempt although the server was silent and the client was polled at every poll_at", l.secs_capped, tsec(self.now))));
                                 }
                             }
@@ -1693,34 +1740,37 @@ pub fn run(tier: Tier) -> i32 {
     rep.assumptions.push("stimulus frames are built with smoltcp::wire emitters (trusted for building, not as oracle); what the client sends is read with an independent parser (RFC 826/951/2131 offsets); a panic inside Interface::poll is isolated with catch_unwind and reported as C18/panic/<file>".into());
     rep.assumptions.push("one dhcpv4::Socket on one Ethernet interface; the harness applies Configured/Deconfigured to the interface exactly like examples/dhcp_client.rs; device back-pressure (transmit() refusing every frame between a block-tx and an unblock-tx event) is an event dimension in the configurations marked bp: true, elsewhere the device never refuses".into());
     rep.assumptions.push("server messages deviate from a well-formed base message in ONE dimension (all values) or in the pair lease x T1/T2 (all values) / unicast x tiny lease; yiaddr values: 192.168.1.42, 255.255.255.255, 0.0.0.0, 224.0.0.1 (subnet-directed broadcast is read as 'unicast', lenient)".into());
-    rep.assumptions.push("reference lease = min(lease option, max_lease_duration); an ACK without lease option is bounded by the cap if one is configured, else nothing is demanded; lenient readings: the IPv4 source of a server frame and a missing END option are outside the statement, so an otherwise acceptable ACK from a source other than the server, or cut right after its last option, may be honoured or ignored; if honoured the lease clock uses the values IN the message (Configured after it is legitimate; arriving during a lease, the later of the two expiries counts and order/attempt clauses are dropped for that lease); ACK without lease option and without cap grants nothing checkable; renew-before-rebind only demanded when the ACK carried both or none of T1/T2; 'renew and rebind attempted before expiry' only for silent server, clock following poll_at, lease (after the max_lease cap) >= 600 s; weak form 'some renewal-type REQUEST before the address is given up' for capped lease >= 10 s; an ARP request for the server counts as renewal attempt; order/attempt verdicts only for leases during which the device accepted frames all the time, solicitation bound only demanded while the device accepts frames (reference restarts at unblock-tx); back-off bound = max(discover_timeout, initial_request_timeout << ((retries-1)/2)) + 1 s + 1 ms".into());
+    rep.assumptions.push("reference lease = min(lease option, max_lease_duration); an ACK without lease option is bounded by the cap if one is configured, else nothing is demanded; lenient readings: the IPv4 source of a server frame and a missing END option are outside the statement, so an otherwise acceptable ACK from a source other than the server, or cut right after its last option, may be honoured or ignored; if honoured the lease clock uses the values IN the message (Configured after it is legitimate; arriving during a lease, the later of the two expiries counts and order/attempt clauses are dropped for that lease); ACK without lease option and without cap grants nothing checkable; a renewal attempt and renew-before-rebind are demanded unless the ACK carried T2 alone; a rebinding attempt strictly before the end of the lease is demanded for every T1/T2 shape; 'renew and rebind attempted before expiry' only for silent server, clock following poll_at, lease (after the max_lease cap) >= 600 s; weak form 'some renewal-type REQUEST before the address is given up' for capped lease >= 10 s; an ARP request for the server counts as renewal attempt; order/attempt verdicts only for leases during which the device accepted frames all the time, solicitation bound only demanded while the device accepts frames (reference restarts at unblock-tx); back-off bound = max(discover_timeout, initial_request_timeout << ((retries-1)/2)) + 1 s + 1 ms".into());
     rep.assumptions.push("state merging: instants relative to now (all <= now equivalent), xid value / PRNG / IPv4 ident stripped (only relations between xids matter, kept in the model image)".into());
 
-    // quick: full alphabet d<=4 on seven configurations (retry/cap mixes with caps None / 30 s /
-    // 600 s, ignore_naks, back-pressure), singles-only alphabet d<=6 on the two extreme
-    // configurations (d<=5 with back-pressure); thorough: the full 2x2x2 configuration cube (d<=6; d<=5 with
-    // ignore_naks), singles-only d<=8, back-pressure d<=5 (singles d<=7), caps 600/300 d<=5.
+    // quick: singles-only alphabet d<=5 on eight configurations (retry/cap mixes with caps None /
+    // 30 s / 600 s, ignore_naks, back-pressure), full alphabet d<=3 on
+    // one configuration per cap class;
+    // thorough: the full 2x2x2 configuration cube (full alphabet, d<=5), singles-only d<=8, back-pressure d<=5 (singles d<=7), caps 600/300 d<=5.
     // (The IP-source dimension multiplies the bound states by the four possible server addresses,
     // the optional-ACK variants add an "order/attempt clauses dropped" copy of every lease state.)
     let mut cfgs: Vec<(Cfg, usize)> = vec![];
     if tier == Tier::Quick {
-        cfgs.push((Cfg { retry_short: false, max_lease: None, ignore_naks: false, alpha: 0, bp: false }, 4));
-        cfgs.push((Cfg { retry_short: true, max_lease: Some(30), ignore_naks: false, alpha: 0, bp: false }, 4));
-        // two levels deeper with the singles-only alphabet
-        cfgs.push((Cfg { retry_short: false, max_lease: None, ignore_naks: false, alpha: 1, bp: false }, 6));
-        cfgs.push((Cfg { retry_short: true, max_lease: Some(30), ignore_naks: false, alpha: 1, bp: false }, 6));
-        cfgs.push((Cfg { retry_short: false, max_lease: Some(30), ignore_naks: false, alpha: 0, bp: false }, 4));
-        cfgs.push((Cfg { retry_short: true, max_lease: None, ignore_naks: false, alpha: 0, bp: false }, 4));
-        cfgs.push((Cfg { retry_short: false, max_lease: None, ignore_naks: true, alpha: 0, bp: false }, 4));
-        cfgs.push((Cfg { retry_short: false, max_lease: None, ignore_naks: false, alpha: 0, bp: true }, 4));
-        cfgs.push((Cfg { retry_short: true, max_lease: Some(30), ignore_naks: false, alpha: 1, bp: true }, 5));
+        let c = |retry_short, max_lease, ignore_naks, alpha, bp| Cfg { retry_short, max_lease, ignore_naks, alpha, bp };
+        // singles-only alphabet (every single deviation; every seeded defect so far needs one)
+        cfgs.push((c(false, None, false, 1, false), 5));
+        cfgs.push((c(true, Some(30), false, 1, false), 5));
+        cfgs.push((c(false, Some(30), false, 1, false), 5));
+        cfgs.push((c(true, None, false, 1, false), 5));
+        cfgs.push((c(false, None, true, 1, false), 5));
+        cfgs.push((c(false, None, false, 1, true), 5));
+        cfgs.push((c(true, Some(30), false, 1, true), 5));
         // a cap long enough for the strong renew-and-rebind clause to be judged on capped leases
-        cfgs.push((Cfg { retry_short: false, max_lease: Some(600), ignore_naks: false, alpha: 0, bp: false }, 4));
+        cfgs.push((c(false, Some(600), false, 1, false), 5));
+        // full alphabet (pairs) shallow, one configuration per cap class
+        cfgs.push((c(false, None, false, 0, false), 3));
+        cfgs.push((c(true, Some(30), false, 0, false), 3));
+        cfgs.push((c(false, Some(600), false, 0, false), 3));
     } else {
         for ignore_naks in [false, true] {
             for retry_short in [false, true] {
                 for max_lease in [None, Some(30)] {
-                                        cfgs.push((Cfg { retry_short, max_lease, ignore_naks, alpha: 0, bp: false }, if ignore_naks { 5 } else { 6 }));
+                                        cfgs.push((Cfg { retry_short, max_lease, ignore_naks, alpha: 0, bp: false }, 5));
                 }
             }
         }
@@ -1771,7 +1821,7 @@ pub fn run(tier: Tier) -> i32 {
     *LABELS.lock().unwrap() = None;
     rep.cov("per_configuration", json!(per_cfg));
     rep.cov("alphabet", json!(alpha_sizes));
-    rep.cov("rule", json!("BFS over choice histories replayed on a fresh real Interface+dhcpv4::Socket; from every distinct state every enabled event: each server message of the alphabet (built from the latest client message on the wire; types OFFER/ACK/NAK/DISCOVER/INFORM/REQUEST; xid latest/earlier/foreign; chaddr own/foreign; server-id present/absent; mask /24, 255.0.255.0, absent; yiaddr unicast/broadcast/0/multicast; lease absent,0,1,2,60,600,2^32-1; T1/T2 absent,0/0,equal,inverted (T2<T1<lease),>lease,T1 only,T2 only,valid,tight,(L/2,7L/8) spelled out,(0,L/2),(L/2,L), and in max-lease configurations (cap-1,cap),(cap,cap+1),(cap+1,L-1) plus a control lease cap-10; router/DNS present/absent; broadcast/unicast delivery; datagram cut right after the last option (no END, no padding) with lease / T1 / T2 / server-id / mask / router as that last option, for OFFER and ACK, the lease-last ACK with every lease value; IPv4 source of the frame = server / 0.0.0.0 / another host of the subnet / an off-subnet host, for OFFER and ACK singly and paired with unicast delivery, no-router, lease 60), 4 two-frame bursts in ONE poll, ARP reply, clock to poll_at, +1 s, expiry-1us/expiry/expiry+1us (reference expiry = min(option, cap) and, where different, the server's uncapped option), silent-server run following poll_at to the end of the lease (ARP answered / not), block-tx / unblock-tx (bp configurations). One Interface::poll + drain of Socket::poll() per event; all oracles after every poll."));
+    rep.cov("rule", json!("BFS over choice histories replayed on a fresh real Interface+dhcpv4::Socket; from every distinct state every enabled event: each server message of the alphabet (built from the latest client message on the wire; types OFFER/ACK/NAK/DISCOVER/INFORM/REQUEST; xid latest/earlier/foreign; chaddr own/foreign; server-id present/absent; mask /24, 255.0.255.0, absent; yiaddr unicast/broadcast/0/multicast; lease absent,0,1,2,60,600,2^32-1; T1/T2 absent,0/0,equal,inverted (T2<T1<lease),>lease,T1 only,T2 only,valid,tight,(L/2,7L/8) spelled out,(0,L/2),(L/2,L), option 58 alone and option 59 alone each with 0, L/2, L-1, L, L+1 (and = cap in max-lease configurations), and in max-lease configurations (cap-1,cap),(cap,cap+1),(cap+1,L-1) plus a control lease cap-10; router/DNS present/absent; broadcast/unicast delivery; datagram cut right after the last option (no END, no padding) with lease / T1 / T2 / server-id / mask / router as that last option, for OFFER and ACK, the lease-last ACK with every lease value; IPv4 source of the frame = server / 0.0.0.0 / another host of the subnet / an off-subnet host, for OFFER and ACK singly and paired with unicast delivery, no-router, lease 60), 4 two-frame bursts in ONE poll, ARP reply, clock to poll_at, +1 s, expiry-1us/expiry/expiry+1us (reference expiry = min(option, cap) and, where different, the server's uncapped option), silent-server run following poll_at to the end of the lease (ARP answered / not), block-tx / unblock-tx (bp configurations). One Interface::poll + drain of Socket::poll() per event; all oracles after every poll."));
 
     rep.cov("caps", json!(format!("the silent-server macro event stops after {} polls (enough for a complete 600 s lease with the ARP request repeated every second); runs that hit the cap are counted as run_silent_capped (leases of 2^32-1 s) and make no attempt verdict; no other cap", RUN_CAP)));
     // narrated samples: a full lease life cycle under each retry configuration
